@@ -43,3 +43,102 @@ def t_rops_pyteal():
 
 
 ALL = [("linegram", t_linegram), ("rops_vs_pyteal", t_rops_pyteal)]
+
+
+def _run(src_items, version=8, mode="lsig", size=1, index=0, own=None, members=None):
+    from vf import ravm
+    from vf.rcfg import RCFG
+
+    g = RCFG({"version": version, "items": src_items})
+    e = ravm.Env(mode)
+    e.size, e.index = size, index
+    e.members = {index: dict(own or {})}
+    for k, v in (members or {}).items():
+        e.members[k] = dict(v)
+    return ravm.run(g, e)
+
+
+def t_ravm():
+    from vf.ir import I, L
+    from vf import ravm
+
+    assert _run([I("int", 1), I("return")]).accepted
+    assert not _run([I("int", 0), I("return")]).accepted
+    assert _run([I("int", 1)]).accepted  # falls off the end with exactly one non-zero value
+    assert not _run([I("int", 1), I("int", 1)]).accepted
+    assert not _run([I("int", 1), I("pop")]).accepted
+    assert _run([I("int", 5), I("int", 1), I("return")]).accepted  # return ignores the rest of the stack
+    assert not _run([I("err")]).accepted
+    assert not _run([I("int", 0), I("assert"), I("int", 1)]).accepted
+    # branches
+    assert _run([I("int", 0), I("bz", "ok"), I("err"), L("ok"), I("int", 1)]).accepted
+    assert not _run([I("int", 1), I("bz", "ok"), I("err"), L("ok"), I("int", 1)]).accepted
+    assert _run([I("int", 7), I("bnz", "ok"), I("err"), L("ok"), I("int", 1)]).accepted
+    assert _run([I("int", 1), I("int", 0), I("bz", "end"), I("err"), L("end")]).accepted  # branch to end of program
+    # callsub / retsub
+    assert _run([I("callsub", "f"), I("int", 1), I("return"), L("f"), I("retsub")]).accepted
+    assert not _run([I("retsub")]).accepted
+    r = _run([I("int", 1), I("callsub", "f"), L("f"), I("retsub")])
+    assert not r.accepted  # second pass through f: retsub with empty call stack
+    assert _run([I("int", 1), I("callsub", "f"), I("return"), L("f"), I("int", 2), I("pop"), I("retsub")]).accepted
+    # switch / match
+    p = [I("txn", "FirstValid"), I("switch", "a", "b"), I("int", 0), I("return"), L("a"), I("int", 1), I("return"), L("b"), I("err")]
+    assert _run(p, own={"FirstValid": 0}).accepted
+    assert not _run(p, own={"FirstValid": 1}).accepted
+    assert not _run(p, own={"FirstValid": 2}).accepted  # falls through to int 0; return
+    m = [I("int", 10), I("int", 20), I("txn", "FirstValid"), I("match", "a", "b"), I("int", 0), I("return"), L("a"), I("err"), L("b"), I("int", 1), I("return")]
+    assert _run(m, own={"FirstValid": 20}).accepted
+    assert not _run(m, own={"FirstValid": 10}).accepted
+    assert not _run(m, own={"FirstValid": 30}).accepted
+    # arithmetic panics, comparisons
+    assert not _run([I("int", 0), I("int", 1), I("-"), I("pop"), I("int", 1)]).accepted
+    assert not _run([I("int", ravm.MAXU64), I("int", 1), I("+"), I("pop"), I("int", 1)]).accepted
+    assert _run([I("int", 3), I("int", 5), I("<")]).accepted
+    assert not _run([I("int", 5), I("int", 5), I("<")]).accepted
+    assert _run([I("int", 5), I("int", 5), I("<=")]).accepted
+    assert not _run([I("addr", ravm.ZERO.decode()), I("int", 0), I("==")]).accepted  # type mismatch panics
+    assert _run([I("global", "ZeroAddress"), I("addr", ravm.ZERO.decode()), I("==")]).accepted
+    # stack ops
+    assert _run([I("int", 1), I("int", 0), I("swap"), I("pop")]).accepted is False
+    assert _run([I("int", 0), I("int", 1), I("swap"), I("pop")]).accepted is True
+    assert _run([I("int", 1), I("int", 0), I("dig", 1), I("return")]).accepted
+    assert _run([I("int", 9), I("int", 8), I("int", 1), I("cover", 2), I("pop"), I("pop")]).accepted  # [1,9,8] -> pop,pop -> [1]
+    assert _run([I("int", 1), I("int", 8), I("int", 9), I("uncover", 2), I("return")]).accepted  # [8,9,1]
+    assert _run([I("int", 0), I("int", 1), I("int", 1), I("select")]).accepted  # C!=0 -> B
+    assert not _run([I("int", 0), I("int", 1), I("int", 0), I("select")]).accepted  # C==0 -> A
+    assert _run([I("int", 1), I("store", 3), I("load", 3)]).accepted
+    assert not _run([I("load", 3)]).accepted  # scratch defaults to 0
+    # group access
+    assert not _run([I("gtxn", 1, "Fee"), I("pop"), I("int", 1)], size=1).accepted  # index out of range
+    assert _run([I("gtxn", 1, "Fee"), I("int", 5), I("==")], size=2, members={1: {"Fee": 5}}).accepted
+    assert _run([I("txn", "GroupIndex"), I("int", 1), I("+"), I("gtxns", "Fee"), I("int", 5), I("==")], size=2, members={1: {"Fee": 5}}).accepted
+    assert _run([I("gtxn", 0, "Fee"), I("int", 7), I("==")], own={"Fee": 7}).accepted  # gtxn own-index aliases txn
+    # intcblock
+    assert _run([I("intcblock", 0, 1), I("intc_1")]).accepted
+    assert not _run([I("intc_1")]).accepted
+    # budget
+    assert not _run([L("l"), I("int", 1), I("pop"), I("b", "l")]).accepted
+    # modes
+    assert not _run([I("global", "CreatorAddress"), I("pop"), I("int", 1)], mode="lsig").accepted
+    assert _run([I("global", "CreatorAddress"), I("pop"), I("int", 1)], mode="app").accepted
+
+
+def t_ravm_search():
+    from vf.ir import I
+    from vf import ravm
+    from vf.rcfg import RCFG
+
+    g = RCFG({"version": 8, "items": [I("txn", "RekeyTo"), I("global", "ZeroAddress"), I("=="), I("assert"), I("txn", "Fee"), I("int", 1000), I("<="), I("return")]})
+    acc = [(e, r) for e, r in ravm.search(g, ravm.Env("lsig"), cap=500) if r.accepted]
+    assert acc and all(e.own["RekeyTo"] == ravm.ZERO and e.own["Fee"] <= 1000 for e, _ in acc)
+    base = ravm.Env("lsig")
+    base.own["RekeyTo"] = ravm.ATTACKER
+    assert not [1 for e, r in ravm.search(g, base, cap=500) if r.accepted]
+    # well-formedness: CloseRemainderTo set forces a payment
+    g2 = RCFG({"version": 8, "items": [I("txn", "TypeEnum"), I("int", "appl"), I("=="), I("assert"), I("int", 1)]})
+    base = ravm.Env("lsig")
+    base.own["CloseRemainderTo"] = ravm.ATTACKER
+    assert not [1 for e, r in ravm.search(g2, base, cap=500) if r.accepted]
+
+
+ALL += [("ravm", t_ravm), ("ravm_search", t_ravm_search)]
